@@ -91,7 +91,8 @@ def find_islands(im, bkg, rms,
     snr = abs(im - bkg) / rms
 
     # mask of pixles that are above the flood_clip
-    a = snr >= flood_clip
+    # (blank pixels, including +/-inf, are never part of an island)
+    a = np.isfinite(snr) & (snr >= flood_clip)
 
     if not np.any(a):
         log.debug("There are no pixels above the clipping limit")
